@@ -528,7 +528,13 @@ def shelve_cmd(ctx, rng, p, pre, basis, msg, basis_paths):
         seen.add((it[0], it[1]))
     stats["items"] = [(it[0], item_fid(it)) for it in rec["items"]]
     stats["n_selected"] = len(rec["items"])
-    if exc is not None and spec and not rec["items"]:
+    in_iter_changes = False
+    if exc is not None:
+        import traceback
+
+        names = [fs.name for fs in traceback.extract_tb(exc.__traceback__)]
+        in_iter_changes = "iter_shelvable" in names and names[-1] not in ("iter_shelvable",) and "shelve_change" not in names and "handle_modify_text" not in names
+    if exc is not None and spec and (not rec["items"] or in_iter_changes):
         # iter_changes(specific_files=...) itself failed before anything was offered (e.g. a named path below an unversioned
         # file that replaced a removed directory: lstat -> ENOTDIR -> AssertionError in the dirstate walker): not shelving
         ctx.hist("cmd:file-args:iter_changes-raised:%s" % type(exc).__name__)
@@ -1040,6 +1046,10 @@ def case(ctx):
                 ctx.fail("shelve:dependent-selection:raises", repr(exc)[:300])
                 rounds = []
                 break
+            if rd.info["kept"]:
+                ctx.fail("shelve:unversioned-kept-object:raises", repr(exc)[:300])
+                rounds = []
+                break
             raise exc
         if outcome == "offered-twice":
             ctx.note((mode, outcome), nontrivial=False)
@@ -1098,6 +1108,12 @@ def case(ctx):
         via = "cmd" if rng.random() < 0.25 else "api"
         ctx.hist("unshelve-via:" + via)
         n, exc = unshelve(ctx, rng, p, rd.sid, shelves, via, rd)
+        if any(f in rd.info["silent"] for f in rd.sel.tok):
+            # an entry that was versioned but missing on disk was part of the selection: the statement does not say what
+            # restoring "missing" means (the shelf records it as a removal), so this round trip is counted, not judged
+            ctx.hist("silent:missing-entry-selected:roundtrip-%s" % ("raised" if exc is not None else "done"))
+            ctx.note(rd.sig + ("missing-selected",), nontrivial=False)
+            break
         keys = compare_roundtrip(ctx, p, rd, n, exc)
         emit(ctx, keys, {"mode": rd.mode, "selmode": rd.selmode, "via": via, "dependent": rd.dependent})
         ctx.hist("roundtrip:" + ("ok" if not keys else "failed"))
